@@ -669,6 +669,8 @@ class BlockDownloadStream(io.RawIOBase):
         self._last_bytes_sent = 0
         self._current_block = []
         self._retransmitting = False
+        # Bytes accepted by write() that do not fill a segment yet
+        self._pending = b""
         command = REQUEST_BLOCK_DOWNLOAD | INITIATE_BLOCK_TRANSFER
         if request_crc_support:
             command |= CRC_SUPPORTED
@@ -707,22 +709,25 @@ class BlockDownloadStream(io.RawIOBase):
             Data to be transmitted.
 
         :returns:
-            Number of bytes successfully sent or ``None`` if length of data is
-            less than 7 bytes and the total size has not been reached yet.
+            Number of bytes accepted. Less than 7 bytes in the middle of a
+            transmission are kept until the rest of the segment arrives.
         """
         if self._done:
             raise RuntimeError("All expected data has already been transmitted")
-        # Can send up to 7 bytes at a time
-        data = b[0:7]
+        # Can send up to 7 bytes at a time; bytes kept from the previous call come first
+        taken = bytes(b[0:7 - len(self._pending)])
+        data = self._pending + taken
         if self.size is not None and self.pos + len(data) >= self.size:
             # This is the last data to be transmitted based on expected size
+            self._pending = b""
             self.send(data, end=True)
         elif len(data) < 7:
             # We can't send less than 7 bytes in the middle of a transmission
-            return None
+            self._pending = data
         else:
+            self._pending = b""
             self.send(data)
-        return len(data)
+        return len(taken)
 
     def send(self, b, end=False):
         """Send up to 7 bytes of data.
@@ -816,6 +821,10 @@ class BlockDownloadStream(io.RawIOBase):
         if self.closed:
             return
         super(BlockDownloadStream, self).close()
+        if not self._done and self._pending:
+            # The data ends with a partial segment (size not known in advance)
+            data, self._pending = self._pending, b""
+            self.send(data, end=True)
         if not self._done:
             logger.error("Block transfer was not finished")
         command = REQUEST_BLOCK_DOWNLOAD | END_BLOCK_TRANSFER
